@@ -40,6 +40,9 @@ type StubSpec struct {
 	Vals  map[string]int `json:"vals"`
 	Addr  bool           `json:"addr"`
 	Types map[string]int `json:"types"`
+	// Alias: names the lookup resolves by asking the environment for ANOTHER name - through the scope it was last
+	// installed on (a host lookup that re-enters the environment it serves, without a cycle)
+	Alias map[string]string `json:"alias,omitempty"`
 }
 
 type Work struct {
@@ -91,6 +94,7 @@ type mval struct {
 type mstub struct {
 	spec StubSpec
 	ctl  *stubCtl
+	home *mscope
 }
 
 type stubCtl struct {
@@ -132,6 +136,9 @@ func (s *mscope) root() *mscope {
 func (m *mstub) get(name string) (mval, bool) {
 	if m.ctl.decide() {
 		return mval{}, false
+	}
+	if tgt, ok := m.spec.Alias[name]; ok && m.home != nil {
+		return m.home.get(tgt)
 	}
 	v, ok := m.spec.Vals[name]
 	if !m.ctl.observing {
@@ -217,6 +224,7 @@ func (s *mscope) deepCopy() *mscope {
 type realStub struct {
 	spec StubSpec
 	ctl  *stubCtl
+	home *env.Env
 }
 
 func mkVal(id int, addr bool) reflect.Value {
@@ -231,6 +239,9 @@ func mkVal(id int, addr bool) reflect.Value {
 func (r *realStub) Get(name string) (reflect.Value, error) {
 	if r.ctl.decide() {
 		return reflect.Value{}, fmt.Errorf("injected external lookup failure")
+	}
+	if tgt, ok := r.spec.Alias[name]; ok && r.home != nil {
+		return r.home.GetValue(tgt)
 	}
 	if v, ok := r.spec.Vals[name]; ok {
 		return mkVal(v, r.spec.Addr), nil
@@ -271,6 +282,10 @@ func (Prop) Gen(seed int64, tier string) *harness.Case {
 			}
 		}
 		sp.Vals["ext"+strconv.Itoa(i)] = 900050 + i
+		if r.Intn(2) == 0 {
+			// never a cycle: the target is not an alias of any lookup
+			sp.Alias = map[string]string{"al" + strconv.Itoa(i): []string{"ext" + strconv.Itoa(i), valNames[0], valNames[1]}[r.Intn(3)]}
+		}
 		for _, n := range tNames[:3] {
 			if r.Intn(3) == 0 {
 				sp.Types[n] = 1 + r.Intn(len(typePool)-1)
@@ -321,6 +336,9 @@ func (Prop) Gen(seed int64, tier string) *harness.Case {
 			op.Name = names[r.Intn(len(names))]
 			if r.Intn(8) == 0 {
 				op.Name = "ext0"
+			}
+			if op.Kind == "Get" && nStubs > 0 && r.Intn(8) == 0 {
+				op.Name = "al" + strconv.Itoa(r.Intn(nStubs))
 			}
 			op.Addr = r.Intn(2) == 0
 			if r.Intn(3) == 0 {
@@ -453,7 +471,7 @@ func (r *run) observe() string {
 		if symset(rs) != symset(ms) {
 			return fmt.Sprintf("scope %d type symbols: real {%s} model {%s}", i, symset(rs), symset(ms))
 		}
-		for _, n := range append(append([]string{}, valNames...), "ext0", "ext1", "zz") {
+		for _, n := range append(append([]string{}, valNames...), "ext0", "ext1", "zz", "al0", "al1") {
 			v, err := p.real.Get(n)
 			mv, ok := p.model.get(n)
 			if a, b := r.descR(v, err), r.descM(mv, ok); a != b {
@@ -717,6 +735,7 @@ func (r *run) step(op Op) (msg string) {
 			m.ext = nil
 			break
 		}
+		r.stubsR[op.Stub].home, r.stubsM[op.Stub].home = e, m
 		e.SetExternalLookup(r.stubsR[op.Stub])
 		m.ext = r.stubsM[op.Stub]
 	case "EnvFromPath":
@@ -805,8 +824,8 @@ func (Prop) Run(t *testing.T, c *harness.Case, verbose bool) *harness.Result {
 	}
 	r := &run{mods: map[*env.Env]*mscope{}, ctlR: &stubCtl{fail: fail}, ctlM: &stubCtl{fail: fail}}
 	for _, sp := range w.Stubs {
-		r.stubsR = append(r.stubsR, &realStub{sp, r.ctlR})
-		r.stubsM = append(r.stubsM, &mstub{sp, r.ctlM})
+		r.stubsR = append(r.stubsR, &realStub{spec: sp, ctl: r.ctlR})
+		r.stubsM = append(r.stubsM, &mstub{spec: sp, ctl: r.ctlM})
 	}
 	var mismatch string
 	var at int
